@@ -218,6 +218,17 @@ def r1_verify_before_replace(rep, src):
     else:
         rep.ok('C19.R1', f.site, 'returned lines are the written lines', 'return %s after replace_file(%s, ...)' % (content, content), nontrivial=False)
     rep.analysed['paths'] += len(tests)
+    remote = None
+    for t, side in final:
+        o_ = t.ast.comparators[0] if side is t.ast.left else t.ast.left
+        if isinstance(o_, ast.Name):
+            remote = o_.id
+    table = None
+    if guard is not None:
+        for s_ in (guard.ast.left, guard.ast.comparators[0]):
+            if isinstance(s_, ast.Subscript) and isinstance(s_.value, ast.Name):
+                table = s_.value.id
+    g.roles = dict(content=content, remote=remote, table=table, hashfns=hashfns, single_defs=single_defs)
     return g
 
 
@@ -407,6 +418,18 @@ def r3_replace_protocol(rep, src):
 def r4_fallbacks(rep, src, g):
     f = src.func(SITE)
     closures = _closure_returning_download(f)
+    roles = getattr(g, 'roles', None) or {}
+    content, remote, table = roles.get('content') or 'lines', roles.get('remote') or 'remote_hash', roles.get('table') or 'patch_hashes'
+    hashfns, single_defs = roles.get('hashfns') or set(), roles.get('single_defs') or {}
+
+    def is_content_hash(e):
+        """e is H(content), directly or through a local bound once to it"""
+        if isinstance(e, ast.Call) and norm(e.func) in hashfns and [norm(a_) for a_ in e.args] == [content]:
+            return True
+        if isinstance(e, ast.Name) and single_defs.get(e.id):
+            # every binding of the name is the hash of the content (one per hash algorithm)
+            return all(isinstance(d_.ast.value, ast.Call) and is_content_hash(d_.ast.value) for d_ in single_defs[e.id])
+        return isinstance(e, ast.Name) and e.id == 'local_hash' and not hashfns
     # classify returns
     rn = _calls(g, 'replace_file')[0][0]
     n_ret = 0
@@ -419,17 +442,18 @@ def r4_fallbacks(rep, src, g):
         if _is_download(v, f) or (isinstance(v, ast.Call) and isinstance(v.func, ast.Name) and v.func.id in closures and not v.args):
             rep.ok('C19.R4', f.site, 'exit `%s`' % norm(n.ast)[:50], 'full download', nontrivial=False)
             continue
-        if norm(v) == 'lines':
+        if norm(v) == content:
             if g.dominates(rn.id, n.id):
                 rep.ok('C19.R4', f.site, 'exit `return lines` after replace_file', 'verified tail', nontrivial=False)
                 continue
             # up-to-date return: dominated by local_hash == remote_hash
-            doms = [t for t in g.nodes if t.kind == 'test' and g.dominates(t.id, n.id) and isinstance(t.ast, ast.Compare)
-                    and {norm(t.ast.left), norm(t.ast.comparators[0])} == {'local_hash', 'remote_hash'} and isinstance(t.ast.ops[0], ast.Eq)]
+            doms = [t for t in g.nodes if t.kind == 'test' and g.dominates(t.id, n.id) and isinstance(t.ast, ast.Compare) and len(t.ast.ops) == 1
+                    and isinstance(t.ast.ops[0], ast.Eq)
+                    and ((norm(t.ast.left) == remote and is_content_hash(t.ast.comparators[0])) or (norm(t.ast.comparators[0]) == remote and is_content_hash(t.ast.left)))]
             reach_true = [t for t in doms if any(lab is True and (d == n.id or g.exists_path(d, n.id, avoid=[t.id])) for d, lab in g.succ[t.id])
                           and not any(lab is False and (d == n.id or g.exists_path(d, n.id, avoid=[t.id])) for d, lab in g.succ[t.id])]
             if reach_true:
-                rep.ok('C19.R4', f.site, 'exit `return lines` when up to date', 'guarded by local_hash == remote_hash')
+                rep.ok('C19.R4', f.site, 'exit `return lines` when up to date', 'guarded by hash(local content) == published hash')
                 continue
         rep.fail('C19.R4', f.site, 'exit `%s`' % norm(n.ast)[:50],
                  'this exit is neither the up-to-date return, the verified result, nor a full download', where='%s:%d' % (f.module.relpath, n.lineno))
@@ -440,7 +464,7 @@ def r4_fallbacks(rep, src, g):
             continue
         pt = [p for p, lab in g.pred[n.id] if g.nodes[p].kind == 'test']
         txt = ' '.join(norm(g.nodes[p].ast) for p in pt)
-        if pt and ('remote_hash' in txt or 'patch_hashes' in txt):
+        if pt and (remote in txt or table in txt):
             rep.ok('C19.R4', f.site, 'raise `%s`' % norm(n.ast)[:40], 'integrity error', nontrivial=False)
         else:
             rep.fail('C19.R4', f.site, 'raise `%s`' % norm(n.ast)[:40], 'an error other than a hash mismatch is raised instead of falling back to a full download',
@@ -488,11 +512,11 @@ def r4_fallbacks(rep, src, g):
                     rep.fail('C19.R4', f.site, 'unpacking ' + norm(n.ast)[:60], 'tuple unpacking of an index entry without a length check',
                              where='%s:%d' % (f.module.relpath, n.lineno))
     subs = [(n, s) for n in g.nodes if n.ast is not None and n.kind in ('stmt', 'test') for s in ast.walk(n.ast)
-            if isinstance(s, ast.Subscript) and norm(s.value) == 'patch_hashes' and isinstance(s.ctx, ast.Load)]
+            if isinstance(s, ast.Subscript) and norm(s.value) == table and isinstance(s.ctx, ast.Load)]
     for n, s in subs:
         key = norm(s.slice)
         guards = [t for t in g.nodes if t.kind == 'test' and g.dominates(t.id, n.id) and
-                  ('%s in patch_hashes' % key in norm(t.ast) or '%s not in patch_hashes' % key in norm(t.ast))]
+                  ('%s in %s' % (key, table) in norm(t.ast) or '%s not in %s' % (key, table) in norm(t.ast))]
         in_try = any(isinstance(a, ast.Try) and any('KeyError' in norm(h.type or '') for h in a.handlers) for a in _ancestors(s))
         if guards or in_try:
             rep.ok('C19.R4', f.site, 'lookup ' + norm(s), 'guarded: %s' % (norm(guards[0].ast)[:70] if guards else 'try/except KeyError'))
@@ -508,11 +532,13 @@ def r4_fallbacks(rep, src, g):
     else:
         rep.ok('C19.R4', f.site, 'no possibly-unbound local', 'definite assignment holds for all locals')
     # remote_hash None-guard when it has a None default
-    inits = [n for n in g.stmts() if n.kind == 'stmt' and isinstance(n.ast, ast.Assign) and norm(n.ast.targets[0]) == 'remote_hash'
+    inits = [n for n in g.stmts() if n.kind == 'stmt' and isinstance(n.ast, ast.Assign) and norm(n.ast.targets[0]) == remote
              and isinstance(n.ast.value, ast.Constant) and n.ast.value.value is None]
     if inits:
-        cmpn = [t for t in g.nodes if t.kind == 'test' and isinstance(t.ast, ast.Compare) and 'new_hash' in norm(t.ast) and 'remote_hash' in norm(t.ast)]
-        guards = [t for t in g.nodes if t.kind == 'test' and 'remote_hash is None' in norm(t.ast)]
+        cmpn = [t for t in g.nodes if t.kind == 'test' and isinstance(t.ast, ast.Compare) and len(t.ast.ops) == 1 and isinstance(t.ast.ops[0], (ast.Eq, ast.NotEq))
+                and g.dominates(t.id, rn.id) and remote in (norm(t.ast.left), norm(t.ast.comparators[0]))
+                and (is_content_hash(t.ast.left) or is_content_hash(t.ast.comparators[0]))]
+        guards = [t for t in g.nodes if t.kind == 'test' and ('%s is None' % remote in norm(t.ast) or 'not %s' % remote in norm(t.ast))]
         if cmpn and guards and all(any(g.dominates(gd.id, c.id) for gd in guards) for c in cmpn):
             rep.ok('C19.R4', f.site, 'index without a -Current entry → full download', '`remote_hash is None` test dominates the final comparison')
         else:
